@@ -162,6 +162,8 @@ def execute(cfg, threads_prog, strat_spec, sched_seed, pre_steps, ctx_spec=None,
         out["held_after"] = [repr(l) for l, o, c in simlock.held()]
         # leave the contexts (innermost first)
         out["exit_errors"] = []
+        out["final"] = [None for _ in w.res]
+        out["bufsize"] = {}
         if not sched.abort:
             for cm in reversed(cms):
                 try:
